@@ -256,7 +256,7 @@ fn dispatch_worker(file_q: cbc::Receiver<Operation>, stats: &Arc<dyn StatusUpdat
                     }
                     // The entry may be the source itself under another
                     // spelling; removing it would delete the source.
-                    if to.exists() && is_same_file(&from, &to)? {
+                    if to.try_exists()? && is_same_file(&from, &to)? {
                         return Err(XcpError::InvalidDestination("Source and destination are the same file.").into());
                     }
                     remove_file(&to)?;
